@@ -6,8 +6,11 @@
 -/
 import Proofs.PairStateList
 import Proofs.PairStateHist
+import Proofs.PairStateFull
+import Proofs.PairStateSim
 import Proofs.HandlerConsts
 namespace Hap.PairState
+open Hap.Encoder
 
 /-- The pairings-protocol TLV constants found in pyhap/hap_handler.py and pyhap/const.py *now*
     (regenerated on every run) are the HAP specification's. -/
@@ -215,8 +218,6 @@ theorem C06_session_guard (parse : Bytes → Option Uuid) (s : PState) (ss : Ses
   obtain ⟨resp, e, herr⟩ := C06_guard parse s ⟨ss c, body⟩ h
   exact ⟨resp, by simp only [sstep, e], herr⟩
 
-/-! ### the code as shipped (before design/fixes/C06.patch) -/
-
 private def demoParse (b : Bytes) : Option Uuid :=
   if b = [65] then some ⟨7, by decide⟩ else if b = [66] then some ⟨8, by decide⟩ else none
 
@@ -225,6 +226,242 @@ private def demoState : PState :=
 
 private def demoLegacyOut : Out :=
   handleAddLegacy demoParse demoState [(tReq, [3]), (tUser, [66]), (tPub, [9, 9]), (tPerm, [1, 0])]
+
+
+/-! ### whole-life histories: the full alphabet, real sessions, restarts, legacy start states
+
+  `HOp` = pair-setup completion | pair-verify exchange on a connection | `POST /pairings` on a connection |
+  configuration-number increment | database-hash update | restart.  `HRel parse w a who` ties the
+  accessory `w` (three maps, handler fields of every connection, persisted identity) to what an observer
+  of the ANSWERS holds: the pairing list `a` (identifier bytes `none` = never seen: a controller imported
+  from a state file that does not record them) and, per connection, the controller `who c` that last
+  proved its identity there. -/
+
+/-- The invariant holds along EVERY whole-life history (any operations in any order, failing ones
+    included, any identifier spellings, restarts anywhere) from every start that satisfies it: after the
+    history the three maps represent exactly the pairing list the answers imply, every connection's
+    `is_encrypted` / `client_uuid` are exactly "verified as its last prover", and the state is one the
+    state file round-trips. (The member-name tables of the state file, regenerated from the source,
+    agree: checked here by `decide`.) -/
+theorem C06_history_invariant (parse : Bytes → Option Uuid) (ops : List HOp) (w : World) (a : Abs) (who : Who)
+    (h : HRel parse w a who) :
+    HRel parse (hrunBoth parse w a who ops).1 (hrunBoth parse w a who ops).2.1 (hrunBoth parse w a who ops).2.2 :=
+  hrel_run parse (by decide) ops w a who h
+
+/-- Start states: a brand-new accessory with any identity … -/
+theorem C06_start_fresh (parse : Bytes → Option Uuid) (mac : String) (cv : Int) (ah : Option String) (priv pub : Bytes)
+    (h1 : priv.length = 32) (h2 : pub.length = 32) :
+    HRel parse ⟨⟨mac, cv, ah, priv, pub, PState.empty⟩, Sessions.fresh⟩ [] (fun _ => none) :=
+  hrel_fresh parse mac cv ah priv pub h1 h2
+
+/-- … and whatever `load_into` produced from a state file whose `paired_clients` and `client_properties`
+    name the same controllers and whose recorded identifier bytes (if any) name their controller: it
+    represents the pairing list read off its maps (`absOf`), with identifier bytes unknown where the file
+    records none. -/
+theorem C06_start_loaded (parse : Bytes → Option Uuid) (d : Doc) (acc : AccState) (hl : load d = some acc)
+    (hal : Aligned acc.ps)
+    (hid : ∀ u b, u ∈ akeys acc.ps.paired → aget acc.ps.u2b u = some b → parse b = some u) :
+    HRel parse ⟨acc, Sessions.fresh⟩ (absOf acc.ps) (fun _ => none) :=
+  let wf := load_wf d acc hl
+  ⟨rel_absOf parse acc.ps hal wf.paired hid, fun _ => rfl, wf.u2b, wf.priv, wf.pub⟩
+
+/-- In particular every file of the oldest generation (neither permissions nor identifier bytes stored) that
+    loads at all: no side condition, every controller an admin, every identifier unknown. -/
+theorem C06_start_legacy (parse : Bytes → Option Uuid) (d : Doc) (acc : AccState) (hl : load d = some acc)
+    (h1 : d.clientProperties = none) (h2 : d.clientUuidToBytes = none) :
+    HRel parse ⟨acc, Sessions.fresh⟩ (absOf acc.ps) (fun _ => none) ∧
+      ∀ e ∈ absOf acc.ps, e.idb = none ∧ e.perm = 1 := by
+  obtain ⟨hal, hone, _⟩ := load_legacy_spec d acc h1 hl
+  have hu : acc.ps.u2b = [] := (load_legacy_no_ids d acc h1 h2 hl).2
+  refine ⟨C06_start_loaded parse d acc hl hal (by intro u b _ hb; rw [hu] at hb; cases hb), ?_⟩
+  intro e he
+  simp only [absOf, List.mem_map] at he
+  obtain ⟨x, hx, rfl⟩ := he
+  refine ⟨by simp [hu, aget], ?_⟩
+  have hk : x.1 ∈ akeys acc.ps.props := by
+    rw [← hal]; exact List.mem_map.mpr ⟨x, hx, rfl⟩
+  obtain ⟨v, g1, g2⟩ := aget_of_mem_keys _ _ hk
+  have : v = 1 := hone _ g2
+  simp [g1, this]
+
+/-- Served only to an admin's verified session, in the observer's terms: in every state the invariant
+    describes (hence after every whole-life history), a `POST /pairings` on a connection whose last
+    prover is not an admin of the CURRENT pairing list — nobody proved anything there since the last
+    restart, or the prover has been removed or demoted since — is answered with an error, changes nothing
+    in the world (maps, identity, every connection) and schedules no save, whatever its body. -/
+theorem C06_history_guard (parse : Bytes → Option Uuid) (w : World) (a : Abs) (who : Who)
+    (h : HRel parse w a who) (c : Nat) (body : Bytes) (hna : ¬ a.adminConn who c) :
+    ∃ resp, hstep parse w (.s (.req c body)) = (w, .resp resp false) ∧ resp.isError = true := by
+  have hg : ¬ (w.ss c).adminNow w.acc.ps := fun hc => hna ((adminNow_iff h c).mp hc)
+  obtain ⟨resp, e, herr⟩ := C06_guard parse w.acc.ps ⟨w.ss c, body⟩ hg
+  refine ⟨resp, ?_, herr⟩
+  simp only [hstep, e]
+
+/-- A connection becomes "proved as `u`" only through an exchange whose identifier names a controller of the
+    current pairing list and whose proof was made with the private key belonging to the key REGISTERED for
+    it (the list entry's key) — the C02 fact, over the observer's list. -/
+theorem C06_history_prover (parse : Bytes → Option Uuid) (w : World) (a : Abs) (who : Who)
+    (h : HRel parse w a who) (c : Nat) (v : VerifyAttempt) (wr : Bool)
+    (hv : (hstep parse w (.s (.verify c v))).2 = .verified true wr) :
+    ∃ idb e, v.outerOk = true ∧ v.idb = some idb ∧ e ∈ a ∧ parse idb = some e.u ∧ v.signer = some e.key ∧
+      (hobserve parse a who (.s (.verify c v)) (.verified true wr)).2 c = some e.u := by
+  simp only [hstep] at hv
+  cases hva : verifiesAs parse w.acc.ps v with
+  | none => rw [hva] at hv; cases hv
+  | some p =>
+    obtain ⟨u, idb⟩ := p
+    obtain ⟨ho, k, h1, h2, h3, h4⟩ := verifiesAs_some parse _ v u idb hva
+    obtain ⟨e, he, heu, hek⟩ := rel_key h.rel u k h3
+    refine ⟨idb, e, ho, h1, he, by rw [heu]; exact h2, by rw [hek]; exact h4, ?_⟩
+    simp [hobserve, h1, h2, heu]
+
+/-- List exactness over whole-life histories: in every state the invariant describes, a list request on
+    a connection whose last prover is an admin of the current list changes nothing and its answer, decoded
+    with the independent TLV8 list decoder, is exactly the observer's list — every current pairing, in
+    registration order, with its key, its admin flag and the identifier bytes it was registered with (for
+    a controller imported without recorded bytes and not yet back-filled: the upper-cased canonical text
+    `str(uuid).upper()`, `idFallback`). -/
+theorem C06_history_list_exact (parse : Bytes → Option Uuid) (hparse : parse [] = none) (w : World) (a : Abs)
+    (who : Who) (h : HRel parse w a who) (c : Nat) (body : Bytes) (hbody : IsListReq body)
+    (hc : a.adminConn who c) :
+    ∃ items, hstep parse w (.s (.req c body)) = (w, .resp (.tlv items false) false) ∧
+      decodePairings (Tlv.encode items) = some a.listing := by
+  obtain ⟨henc, u, hcu, hadm⟩ := (adminNow_iff h c).mpr hc
+  obtain ⟨objs, rest, hd, hrt⟩ := hbody
+  refine ⟨listItems w.acc.ps, ?_, ?_⟩
+  · simp [hstep, handlePairings, hcu, henc, hadm, hd, hrt]
+  · rw [decodePairings_list, rel_listing parse hparse _ _ h.rel]
+
+/-- Error atomicity over the full alphabet: in every state the invariant describes, an operation answered
+    with an error — a `POST /pairings` or pair-setup completion with HTTP status ≥ 400 or a TLV error item,
+    or a pair-verify exchange that is refused — leaves the ENTIRE world as it was (all three maps, the
+    identity, every connection's session facts) and schedules no save. -/
+theorem C06_history_error_atomic (parse : Bytes → Option Uuid) (w : World) (a : Abs) (who : Who)
+    (h : HRel parse w a who) (op : HOp) :
+    (∀ r wr, (hstep parse w op).2 = .resp r wr → r.isError = true → (hstep parse w op).1 = w ∧ wr = false) ∧
+    (∀ wr, (hstep parse w op).2 = .verified false wr → (hstep parse w op).1 = w ∧ wr = false) := by
+  have hal := rel_aligned h.rel
+  cases op with
+  | s sop =>
+    cases sop with
+    | setup idb key =>
+      refine ⟨?_, fun wr he => (by simp [hstep] at he)⟩
+      intro r wr he herr
+      simp only [hstep, HAns.resp.injEq] at he
+      obtain ⟨rfl, rfl⟩ := he
+      obtain ⟨e1, e2⟩ := C06_error_atomic parse w.acc.ps (.setup idb key) hal herr
+      refine ⟨?_, e2⟩
+      simp only [hstep, e1]
+    | req c body =>
+      refine ⟨?_, fun wr he => (by simp [hstep] at he)⟩
+      intro r wr he herr
+      simp only [hstep, HAns.resp.injEq] at he
+      obtain ⟨rfl, rfl⟩ := he
+      obtain ⟨e1, e2⟩ := C06_error_atomic parse w.acc.ps (.req ⟨w.ss c, body⟩) hal herr
+      refine ⟨?_, e2⟩
+      simp only [step] at e1
+      simp only [hstep, e1]
+    | verify c v =>
+      simp only [hstep]
+      cases verifiesAs parse w.acc.ps v with
+      | none =>
+        refine ⟨fun r wr he => ?_, fun wr he => ?_⟩
+        · simp at he
+        · simp only [HAns.verified.injEq, true_and] at he
+          exact ⟨rfl, he.symm⟩
+      | some p =>
+        refine ⟨fun r wr he => ?_, fun wr he => ?_⟩
+        · simp at he
+        · simp at he
+  | config => refine ⟨fun r wr he => ?_, fun wr he => ?_⟩ <;> simp [hstep] at he
+  | hsh hh => refine ⟨fun r wr he => ?_, fun wr he => ?_⟩ <;> simp [hstep] at he
+  | restart =>
+    simp only [hstep]
+    split <;> refine ⟨fun r wr he => ?_, fun wr he => ?_⟩ <;> simp at he
+
+/-- Last admin over the full alphabet: whenever an operation of a whole-life history makes some paired
+    controller unpaired, the result still has a paired admin or no pairing and no permission entry at all.
+    (Exchanges, configuration / hash changes and restarts never unpair anybody.) -/
+theorem C06_history_last_admin (parse : Bytes → Option Uuid) (w : World) (a : Abs) (who : Who)
+    (h : HRel parse w a who) (op : HOp) (u : Uuid) (hbefore : u ∈ akeys w.acc.ps.paired)
+    (hafter : u ∉ akeys (hstep parse w op).1.acc.ps.paired) :
+    let s' := (hstep parse w op).1.acc.ps
+    (∃ e ∈ s'.paired, isAdmin s' e.1 = true) ∨ (s'.paired = [] ∧ s'.props = []) := by
+  have hal := rel_aligned h.rel
+  cases op with
+  | s sop =>
+    cases sop with
+    | setup idb key => exact C06_last_admin parse w.acc.ps (.setup idb key) hal u hbefore hafter
+    | req c body => exact C06_last_admin parse w.acc.ps (.req ⟨w.ss c, body⟩) hal u hbefore hafter
+    | verify c v =>
+      exfalso; apply hafter
+      have := (C06_verify_preserves_pairings parse w.acc.ps w.ss c v).1
+      rw [(hstep_s parse w (.verify c v)).1, this]; exact hbefore
+  | config => exact absurd hbefore hafter
+  | hsh hh =>
+    exfalso; apply hafter
+    simp only [hstep, setAccessoriesHash]
+    split <;> exact hbefore
+  | restart =>
+    exfalso; apply hafter
+    simp only [hstep, restart_identity (by decide) w.acc h.wf]; exact hbefore
+
+/-- Never leaves orphans, over all three maps: after every whole-life history `paired_clients` and
+    `client_properties` hold exactly the same controllers (each once) — no key without permissions, no
+    permissions without a key — and every entry of `uuid_to_bytes` belongs to a paired controller or is
+    INERT: a controller that is not paired is not admin, cannot be proved by any pair-verify exchange and
+    does not appear in the list answer, whatever bytes are still recorded for it. -/
+theorem C06_no_orphans (parse : Bytes → Option Uuid) (ops : List HOp) (w : World) (a : Abs) (who : Who)
+    (h : HRel parse w a who) :
+    let s := (hrun parse w ops).acc.ps
+    akeys s.paired = akeys s.props ∧ KeysNodup s ∧
+    ∀ u, u ∉ akeys s.paired →
+      isAdmin s u = false ∧ (∀ v idb, verifiesAs parse s v ≠ some (u, idb)) ∧
+      ∀ e ∈ (s.paired.map fun e => (e.1, regBytes s e.1, e.2, isAdmin s e.1)), e.1 ≠ u := by
+  have hr := C06_history_invariant parse ops w a who h
+  rw [hrunBoth_fst] at hr
+  refine ⟨rel_aligned hr.rel, rel_keysNodup hr.rel hr.u2b, ?_⟩
+  intro u hu
+  refine ⟨?_, ?_, ?_⟩
+  · have hp : u ∉ akeys (hrun parse w ops).acc.ps.props := by rw [← rel_aligned hr.rel]; exact hu
+    simp [isAdmin, aget_none_of_not_mem _ _ hp]
+  · intro v idb hv
+    obtain ⟨_, k, _, _, h3, _⟩ := verifiesAs_some parse _ v u idb hv
+    rw [aget_none_of_not_mem _ _ hu] at h3; cases h3
+  · intro e he heq
+    simp only [List.mem_map] at he
+    obtain ⟨x, hx, rfl⟩ := he
+    exact hu (heq ▸ List.mem_map.mpr ⟨x, hx, rfl⟩)
+
+
+/-- Orphaned identifier bytes are unobservable over whole lives: take two accessories that satisfy the
+    invariant and differ at most in `uuid_to_bytes` entries of controllers that are NOT paired (`SimW`: same
+    `paired_clients`, same `client_properties`, same bytes for every paired controller, same identity and
+    sessions). Then EVERY whole-life history gets exactly the same answers from both — every `POST /pairings`
+    answer incl. every list, every pair-verify outcome, every save flag, every restart. So the entries the
+    last-admin sweep leaves behind (`C06_stale_id_bytes_witness`) are not pairings in any observable sense. -/
+theorem C06_stale_ids_unobservable (parse : Bytes → Option Uuid) (ops : List HOp) (w v : World) (a a' : Abs)
+    (who who' : Who) (hw : HRel parse w a who) (hv : HRel parse v a' who') (h : SimW w v) :
+    hanswers parse w ops = hanswers parse v ops :=
+  simW_run parse (by decide) ops w v a a' who who' hw hv h
+
+/-- … one step at a time: same answer, and the two accessories stay related. -/
+theorem C06_stale_ids_unobservable_step (parse : Bytes → Option Uuid) (w v : World) (h : SimW w v)
+    (hw : Encoder.WF w.acc) (hv : Encoder.WF v.acc) (op : HOp) :
+    SimW (hstep parse w op).1 (hstep parse v op).1 ∧ (hstep parse w op).2 = (hstep parse v op).2 :=
+  simW_hstep parse (by decide) h hw hv op
+
+/-- Such inert entries do exist: removing the last admin sweeps `paired_clients` and `client_properties`
+    but leaves the swept controllers' identifier bytes recorded (reported as a note, see DESIGN §3 C06). -/
+theorem C06_stale_id_bytes_witness :
+    let add : Op := .req ⟨⟨true, some ⟨7, by decide⟩⟩, Tlv.encode [(tReq, [3]), (tUser, [66]), (tPub, [9]), (tPerm, [0])]⟩
+    let rem : Op := .req ⟨⟨true, some ⟨7, by decide⟩⟩, Tlv.encode [(tReq, [4]), (tUser, [65])]⟩
+    (run demoParse demoState [add, rem]).paired = [] ∧
+    (run demoParse demoState [add, rem]).u2b = [(⟨8, by decide⟩, [66])] := by
+  decide +kernel
+
+/-! ### the code as shipped (before design/fixes/C06.patch) -/
+
 
 /-- The unrepaired add path breaks error atomicity: an add-pairing whose permissions item has two
     bytes is answered 500 but leaves controller `8` in `paired_clients` without properties
@@ -267,5 +504,43 @@ example :
     (run demoParse demoState [add]).paired.length = 2 ∧
     (run demoParse demoState [add, rem]).paired = [] ∧ (run demoParse demoState [add, rem]).props = [] := by
   decide +kernel
+
+/-! ### non-vacuity of the whole-life theorems -/
+
+private def demoKey32 : Bytes := List.replicate 32 7
+private def demoWorld : World := ⟨⟨"AA:BB", 65535, none, demoKey32, demoKey32, PState.empty⟩, Sessions.fresh⟩
+private def demoAddBody : Bytes := Tlv.encode [(tReq, [3]), (tUser, [66]), (tPub, [9]), (tPerm, [0])]
+private def demoLife : List HOp :=
+  [.s (.setup [65] [1, 2, 3]), .s (.verify 0 ⟨true, some [65], some [1, 2, 3]⟩), .s (.req 0 demoAddBody),
+   .hsh (some "h"), .restart, .s (.verify 3 ⟨true, some [66], some [9]⟩), .s (.verify 4 ⟨true, some [65], some [1, 2, 3]⟩)]
+
+example : HRel demoParse demoWorld [] (fun _ => none) :=
+  C06_start_fresh demoParse _ _ _ _ _ (by decide) (by decide)
+/-- a whole life with a restart in it: two pairings, the configuration number wrapped to 1, the admin
+    proved on connection 4 and the plain user on connection 3 after the restart, nobody on connection 0 -/
+example :
+    let r := hrunBoth demoParse demoWorld [] (fun _ => none) demoLife
+    r.2.1.listing = [([65], [1, 2, 3], true), ([66], [9], false)] ∧ r.1.acc.configVersion = 1 ∧
+    r.2.1.adminConn r.2.2 4 ∧ ¬ r.2.1.adminConn r.2.2 3 ∧ ¬ r.2.1.adminConn r.2.2 0 := by
+  refine ⟨by decide +kernel, by decide +kernel, ⟨⟨7, by decide⟩, by decide +kernel, by decide +kernel⟩, ?_, ?_⟩
+  · rintro ⟨u, hu, ha⟩
+    have : u = ⟨8, by decide⟩ := by
+      have h3 : (hrunBoth demoParse demoWorld [] (fun _ => none) demoLife).2.2 3 = some ⟨8, by decide⟩ := by decide +kernel
+      rw [h3] at hu; exact (Option.some.inj hu).symm
+    subst this
+    revert ha; decide +kernel
+  · rintro ⟨u, hu, _⟩
+    have h0 : (hrunBoth demoParse demoWorld [] (fun _ => none) demoLife).2.2 0 = none := by decide +kernel
+    rw [h0] at hu; cases hu
+/-- two different accessories related by `SimW`: the second carries identifier bytes of an unpaired controller -/
+example : SimW demoWorld ⟨{ demoWorld.acc with ps := { PState.empty with u2b := [(⟨8, by decide⟩, [66])] } }, Sessions.fresh⟩ ∧
+    demoWorld.acc.ps ≠ { PState.empty with u2b := [(⟨8, by decide⟩, [66])] } :=
+  ⟨⟨⟨rfl, rfl, fun _ hu => by simp [demoWorld, PState.empty, akeys] at hu⟩, rfl, rfl, rfl, rfl, rfl, rfl⟩, by decide⟩
+/-- a state file of the oldest generation that loads: one controller, admin, identifier unknown -/
+private def demoLegacyDoc : Doc :=
+  { mac := "m", configVersion := 2, pairedClients := [("00000000-0000-0000-0000-000000000007", "0a")],
+    clientProperties := none, accessoriesHash := none, clientUuidToBytes := none,
+    privateKey := toHex demoKey32, publicKey := toHex demoKey32 }
+example : (load demoLegacyDoc).map (fun acc => absOf acc.ps) = some [⟨⟨7, by decide⟩, none, [10], 1⟩] := by decide +kernel
 
 end Hap.PairState
